@@ -404,6 +404,22 @@ func (db *DB) Merge() error {
 		}
 
 		f.rwManager.Close()
+
+		if db.ActiveFile != nil && db.ActiveFile.fileID == int64(pendingMergeFId) {
+			// The active segment itself held no live record and has just been
+			// removed, and no rewrite replaced it: commits would keep appending
+			// to the unlinked file and be lost at the next Open. Start a new
+			// active segment.
+			db.ActiveFile.rwManager.Close()
+			activeFile, err := NewDataFile(db.getDataPath(db.MaxFileID+1), db.opt.SegmentSize, db.opt.RWMode)
+			if err != nil {
+				db.isMerging = false
+				return err
+			}
+			db.MaxFileID++
+			activeFile.fileID = db.MaxFileID
+			db.ActiveFile = activeFile
+		}
 	}
 
 	return nil
